@@ -240,3 +240,5 @@ def run(ctx):
     ctx.do(rule_no_hidden_state, "C20.history-independence")
     from .pitfalls import rule_loops_not_cut_short
     ctx.do(rule_loops_not_cut_short, "C20.loops-complete")
+    from .pitfalls import rule_definite_assignment
+    ctx.do(rule_definite_assignment, "C20.definite-assignment")
